@@ -16,6 +16,7 @@ package proxy
 
 import (
 	"fmt"
+	"os"
 	"runtime"
 	"strings"
 	"sync"
@@ -34,6 +35,8 @@ const (
 	// harness guard only (never a verdict): an expired wait without a proof is VF-INCONCLUSIVE
 	vfC04BarrierTimeout = 120 * time.Second
 	vfC04Burst          = 12 // more than the capacity (10) of a service watcher's channel
+	// fallback mode (goroutines not recognisable): a hand-over that takes longer ends the case as ambiguous
+	vfC04FallbackTimeout = 20 * time.Second
 )
 
 // vfC04Driver is a minimal in-memory registry driver (serviceregistry.Registry).
@@ -107,27 +110,54 @@ func (d *vfC04Driver) setFailing(f bool) (failed int) {
 
 // vfC04Snapshot is one atomic picture of all goroutines (runtime.Stack stops the world). The
 // verdicts "delivered" and "never" are read from such a picture, not from a clock. They rest on
-// one fact about Go channels: a goroutine shown as parked in "select" found none of its channels
-// ready when it parked, and a later send on one of them would have handed the value over and made
-// it runnable (it would not show as "select" any more).
+// one fact about Go channels: a goroutine shown as parked in "select" / "chan receive" found none
+// of its channels ready when it parked, and a later send on one of them would have handed the
+// value over and made it runnable (it would not show as parked any more).
+//
+// Goroutines are recognised by where their code lives, not by function names (unexported names
+// change in refactors):
+//
+//	readers: goroutines started by the proxy package itself (a frame in pkg/filters/proxy/*.go,
+//	         no test frame): the pools' service-watch loops, the only readers of watcher channels;
+//	loops:   goroutines living in pkg/object/serviceregistry/*.go only: the registry's per-driver
+//	         loops, the only readers of a driver's notify channel;
+//	blocked dispatcher: any goroutine in state "chan send" whose blocking frame is in
+//	         pkg/object/serviceregistry/: a hand-over to a full watcher channel (the registry
+//	         holds its mutex while dispatching);
+//	senders: harness goroutines blocked handing an event to the registry.
 type vfC04Snapshot struct {
-	dispatcherBlocked string // header of a goroutine in ServiceRegistry._handleRegistryEvent in state "chan send"
-	dispatchBlocked   int    // number of such goroutines
-	inDispatch        int    // goroutines inside _handleRegistryEvent (any state)
-	readers, parked   int    // ServerPool.watchServers goroutines (they read the watcher channels) / parked in select
-	loops, loopsIdle  int    // ServiceRegistry.watchRegistry goroutines (they read the driver channels) / parked in select
-	sendersBlocked    int    // harness goroutines blocked handing an event to the registry
+	dispatcherBlocked string // header of a blocked dispatcher
+	readers, parked   int
+	loops, loopsIdle  int
+	sendersBlocked    int
 }
 
-var (
-	// vfC04Base: goroutines left behind by earlier cases of this process in which a permanent block
-	// was proven (they can never be shut down; only relevant while rapid shrinks a failure)
-	vfC04Base        vfC04Snapshot
-	vfC04StackBuf    = make([]byte, 1<<20)
-	vfC04NamesProven bool // the goroutine names the proofs rely on were seen at least once
+const (
+	vfC04ProxyDir    = "/pkg/filters/proxy/"
+	vfC04RegistryDir = "/pkg/object/serviceregistry/"
 )
 
+var (
+	// vfC04Ignored: goroutines left behind by earlier cases of this process in which a permanent
+	// block was proven (they can never be shut down; only relevant while rapid shrinks a failure)
+	vfC04Ignored  = map[string]bool{}
+	vfC04StackBuf = make([]byte, 1<<20)
+	// vfC04Proofs: the calibration fixture recognised readers and loops in this tree. When false the
+	// target runs in its name-free fallback mode (see vfC04Calibrate).
+	vfC04Proofs bool
+)
+
+func vfC04Parked(state string) bool {
+	return strings.HasPrefix(state, "select") || strings.HasPrefix(state, "chan receive")
+}
+
 func vfC04TakeSnapshot() (s vfC04Snapshot) {
+	s, _ = vfC04TakeSnapshotIDs()
+	return s
+}
+
+// vfC04TakeSnapshotIDs also returns the ids of the goroutines it counted.
+func vfC04TakeSnapshotIDs() (s vfC04Snapshot, ids []string) {
 	n := runtime.Stack(vfC04StackBuf, true)
 	for n == len(vfC04StackBuf) {
 		vfC04StackBuf = make([]byte, 2*len(vfC04StackBuf))
@@ -136,61 +166,99 @@ func vfC04TakeSnapshot() (s vfC04Snapshot) {
 	for _, g := range strings.Split(string(vfC04StackBuf[:n]), "\n\n") {
 		nl := strings.IndexByte(g, '\n')
 		lb := strings.IndexByte(g, '[')
-		if nl < 0 || lb < 0 || lb > nl {
+		if nl < 0 || lb < 0 || lb > nl || !strings.HasPrefix(g, "goroutine ") {
 			continue
 		}
-		head, state, body := g[:nl], g[lb+1:nl], g[nl:]
-		if strings.Contains(body, "serviceregistry.(*ServiceRegistry)._handleRegistryEvent") {
-			s.inDispatch++
-			if strings.HasPrefix(state, "chan send") {
-				s.dispatcherBlocked = strings.TrimSuffix(head, ":")
-				s.dispatchBlocked++
+		id := strings.TrimSpace(g[len("goroutine "):lb])
+		if vfC04Ignored[id] {
+			continue
+		}
+		head, state := strings.TrimSuffix(g[:nl], ":"), g[lb+1:nl]
+		// frames of the goroutine itself (the "created by" part names the creator, not the goroutine)
+		body := g[nl:]
+		if cb := strings.Index(body, "\ncreated by "); cb >= 0 {
+			body = body[:cb]
+		}
+		inTest, inProxy, inRegistry, first := false, false, false, ""
+		for _, line := range strings.Split(body, "\n") {
+			if !strings.HasPrefix(line, "\t") {
+				continue
 			}
+			file := strings.TrimSpace(line)
+			if sp := strings.IndexByte(file, ' '); sp >= 0 {
+				file = file[:sp]
+			}
+			if c := strings.LastIndexByte(file, ':'); c >= 0 {
+				file = file[:c]
+			}
+			if first == "" && !strings.Contains(file, "/src/runtime/") && !strings.Contains(file, "/go/src/") && !strings.HasPrefix(file, "runtime/") {
+				first = file
+			}
+			switch {
+			case strings.HasSuffix(file, "_test.go"):
+				inTest = true
+			case strings.Contains(file, vfC04ProxyDir):
+				inProxy = true
+			case strings.Contains(file, vfC04RegistryDir):
+				inRegistry = true
+			}
+		}
+		chanSend := strings.HasPrefix(state, "chan send")
+		if chanSend && strings.Contains(first, vfC04RegistryDir) {
+			s.dispatcherBlocked = head
+			ids = append(ids, id)
 		}
 		switch {
-		case strings.Contains(body, "proxy.(*ServerPool).watchServers.func"):
+		case chanSend && strings.Contains(body, "proxy.(*vfC04Driver).send.func"):
+			s.sendersBlocked++
+			ids = append(ids, id)
+		case inTest:
+		case inProxy:
+			ids = append(ids, id)
 			s.readers++
-			if strings.HasPrefix(state, "select") {
+			if vfC04Parked(state) {
 				s.parked++
 			}
-		case strings.Contains(body, "serviceregistry.(*ServiceRegistry).watchRegistry"):
+		case inRegistry:
+			ids = append(ids, id)
 			s.loops++
-			if strings.HasPrefix(state, "select") {
+			if vfC04Parked(state) {
 				s.loopsIdle++
 			}
-		case strings.Contains(body, "proxy.(*vfC04Driver).send.func") && strings.HasPrefix(state, "chan send"):
-			s.sendersBlocked++
 		}
 	}
-	return s
+	return s, ids
 }
 
-// vfC04StableSnapshot: the goroutines left over once everything that can still move has moved.
-func vfC04StableSnapshot() vfC04Snapshot {
-	prev := vfC04TakeSnapshot()
+// vfC04IgnoreLeftovers: called once a permanent block was proven. Whatever is still around after
+// things have stopped moving belongs to the blocked case for ever.
+func vfC04IgnoreLeftovers() {
+	prev, ids := vfC04TakeSnapshotIDs()
 	for i := 0; i < 200; i++ {
 		time.Sleep(5 * time.Millisecond)
-		cur := vfC04TakeSnapshot()
+		cur, cids := vfC04TakeSnapshotIDs()
+		ids = cids
 		if cur == prev && i >= 3 {
 			break
 		}
 		prev = cur
 	}
-	return prev
+	for _, id := range ids { // readers, loops, blocked dispatchers and blocked senders still around
+		vfC04Ignored[id] = true
+	}
 }
 
 // never returns a proof that the pending hand-over / call can never complete, or "".
 func (s vfC04Snapshot) never() (key, proof string) {
-	// (1) the dispatcher is blocked on a full watcher channel (holding the registry mutex) and every
+	// (1) a dispatcher is blocked on a full watcher channel (holding the registry mutex) and every
 	// goroutine that reads watcher channels is parked: none of their channels is the full one
-	b := vfC04Base
-	if s.dispatchBlocked > b.dispatchBlocked && s.readers-s.parked == b.readers-b.parked {
-		return "discovery-dispatch-blocked-forever", fmt.Sprintf("%s is blocked in ServiceRegistry._handleRegistryEvent on a send to a full watcher channel while holding the registry mutex; all %d watcher-reading goroutines (ServerPool.watchServers) are parked in select, so nobody reads that channel", s.dispatcherBlocked, s.readers)
+	if s.dispatcherBlocked != "" && s.readers == s.parked {
+		return "discovery-dispatch-blocked-forever", fmt.Sprintf("%s is blocked inside the service registry on a send to a full watcher channel while the registry mutex is held; all %d goroutines the proxy pools run (their service-watch loops, the only readers of watcher channels) are parked waiting, so nobody reads that channel", s.dispatcherBlocked, s.readers)
 	}
-	// (2) the driver is blocked handing an event to the registry and every registry loop is parked
-	// in select (or none exists): none of them listens to this driver's channel
-	if s.sendersBlocked > b.sendersBlocked && s.loops-s.loopsIdle == b.loops-b.loopsIdle && s.inDispatch == b.inDispatch {
-		return "discovery-event-never-dispatched", fmt.Sprintf("the driver is blocked handing an event to the registry while all %d ServiceRegistry.watchRegistry goroutine(s) are parked in select: no goroutine listens to the registered driver's notify channel", s.loops)
+	// (2) the driver is blocked handing an event to the registry and every goroutine of the registry
+	// is parked (or none exists): none of them listens to this driver's channel
+	if s.sendersBlocked > 0 && s.loops == s.loopsIdle && s.dispatcherBlocked == "" {
+		return "discovery-event-never-dispatched", fmt.Sprintf("the driver is blocked handing an event to the registry while all %d goroutine(s) of the service registry are parked waiting on other channels: no goroutine listens to the registered driver's notify channel", s.loops)
 	}
 	return "", ""
 }
@@ -198,14 +266,20 @@ func (s vfC04Snapshot) never() (key, proof string) {
 // quiescent: nothing is being dispatched and every reader of a watcher channel is parked, i.e. every
 // event handed over so far has been consumed and applied by the pools.
 func (s vfC04Snapshot) quiescent() bool {
-	b := vfC04Base
-	return s.inDispatch == b.inDispatch && s.readers-s.parked == b.readers-b.parked &&
-		s.loops-s.loopsIdle == b.loops-b.loopsIdle && s.sendersBlocked == b.sendersBlocked
+	return s.dispatcherBlocked == "" && s.readers == s.parked && s.loops == s.loopsIdle && s.sendersBlocked == 0
 }
 
 // vfC04Await waits until done is closed (and, if settle, until the system is quiescent). A clock
-// only paces the snapshots.
+// only paces the snapshots. In fallback mode (no proofs) it is a plain bounded wait for done.
 func vfC04Await(done <-chan struct{}, settle bool, what string) (key, proof string, err error) {
+	if !vfC04Proofs {
+		select {
+		case <-done:
+			return "", "", nil
+		case <-time.After(vfC04FallbackTimeout):
+			return "", "", fmt.Errorf("%s did not complete within %v (no proof available in this tree)", what, vfC04FallbackTimeout)
+		}
+	}
 	deadline := time.Now().Add(vfC04BarrierTimeout)
 	pause := 50 * time.Microsecond
 	for i := 0; ; i++ {
@@ -318,13 +392,24 @@ func vfC04NewWatchEnv() (*vfC04WatchEnv, error) {
 		super: supervisor.NewMock(option.New(), nil, sync.Map{}, sysCtrls, nil, nil, false, nil, nil)}, nil
 }
 
-// vfC04Calibrate checks once that the goroutine names the snapshot proofs rely on exist in this
-// tree: a registered driver and a discovery pool must show one registry loop and one reader.
-func vfC04Calibrate(t *testing.T) {
+// vfC04Calibrate checks once that this tree's goroutines can be recognised the way the snapshot
+// proofs need: with a registered driver and a discovery pool, one registry loop and one pool reader
+// must show up and come to rest. If not (code moved to other packages, another concurrency
+// structure), the target runs in fallback mode: a report counts as delivered after it was followed
+// by more resyncs than a watcher channel can buffer, no "never" verdict is raised, a hand-over that
+// does not complete within vfC04FallbackTimeout ends that case as ambiguous.
+func vfC04Calibrate(t *testing.T, vf *vfCollector) {
+	vfC04Proofs = false
+	if os.Getenv("VERIF_C04_NOPROOF") == "1" {
+		vf.Class("proof-unavailable:goroutine-names-not-found")
+		vf.Note("watch target in fallback mode (forced by VERIF_C04_NOPROOF=1)")
+		return
+	}
 	env, err := vfC04NewWatchEnv()
 	if err != nil {
 		t.Fatalf("VF-INCONCLUSIVE cannot create the ServiceRegistry controller: %v", err)
 	}
+	base := vfC04TakeSnapshot()
 	d := vfC04NewDriver(nil)
 	if err := env.sr.RegisterRegistry(d); err != nil {
 		t.Fatalf("VF-INCONCLUSIVE RegisterRegistry: %v", err)
@@ -333,14 +418,25 @@ func vfC04Calibrate(t *testing.T) {
 	if err != nil {
 		t.Fatalf("VF-INCONCLUSIVE calibration proxy: %v", err)
 	}
-	s := vfC04TakeSnapshot()
+	var s vfC04Snapshot
+	ok := false
+	for i := 0; i < 400 && !ok; i++ {
+		s = vfC04TakeSnapshot()
+		ok = s.readers == base.readers+1 && s.loops == base.loops+1 && s.quiescent()
+		if !ok {
+			time.Sleep(5 * time.Millisecond)
+		}
+	}
 	px.Close()
 	env.sr.DeregisterRegistry(vfC04RegistryName)
 	env.sr.Close()
-	if s.readers < 1 || s.loops < 1 {
-		t.Fatalf("VF-INCONCLUSIVE the goroutines the delivery proofs rely on were not found (ServerPool.watchServers readers=%d, ServiceRegistry.watchRegistry loops=%d): the harness must be adapted to the tree", s.readers, s.loops)
+	if !ok {
+		vf.Class("proof-unavailable:goroutine-names-not-found")
+		vf.Note(fmt.Sprintf("watch target in fallback mode: pool readers / registry loops not recognisable (readers=%d parked=%d loops=%d idle=%d)", s.readers, s.parked, s.loops, s.loopsIdle))
+		return
 	}
-	vfC04NamesProven = true
+	vfC04Proofs = true
+	vf.Class("proof-available")
 }
 
 // TestVerifC04Watcher: start-up order x generations of the pool x driver re-registration x reports
@@ -351,9 +447,16 @@ func TestVerifC04Watcher(t *testing.T) {
 	saved := fnSendRequest
 	fnSendRequest = vfC04Send
 	defer func() { fnSendRequest = saved }()
-	vfC04Calibrate(t)
+	vfC04Calibrate(t, vf)
+	cases, ambiguous := 0, 0
+	defer func() {
+		if ambiguous*3 > cases && ambiguous > 0 {
+			t.Errorf("VF-INCONCLUSIVE %d of %d cases ended without a verdict (hand-over not completed, no proof available in this tree)", ambiguous, cases)
+		}
+	}()
 	rapid.Check(t, func(rt *rapid.T) {
 		m := &vfC04Machine{vf: vf}
+		cases++
 		p := vfC04GenPool(rt, "main", 0, vfC04GenOpts{forceDiscovery: true, registry: vfC04RegistryName})
 		p.steerStatic(vf)
 		m.pools = []*vfC04Pool{p}
@@ -384,6 +487,16 @@ func TestVerifC04Watcher(t *testing.T) {
 		nextGen := 0
 		// verdict turns the outcome of a wait into inconclusive / violation / go on
 		verdict := func(what, key, proof string, err error) bool {
+			if err != nil && !vfC04Proofs {
+				// fallback mode: no way to tell slow from never; the case ends without a verdict
+				stuck, m.abandoned = true, true
+				ambiguous++
+				vf.Class("ambiguous-no-proof-available")
+				if ambiguous >= 8 && ambiguous*3 > cases {
+					rt.Fatalf("VF-INCONCLUSIVE %d of %d cases so far ended without a verdict (hand-over not completed, no proof available in this tree)", ambiguous, cases)
+				}
+				return false
+			}
 			if err != nil {
 				rt.Fatalf("VF-INCONCLUSIVE %v\n%s", err, m.history())
 			}
@@ -406,6 +519,20 @@ func TestVerifC04Watcher(t *testing.T) {
 			return verdict(what, key, proof, err)
 		}
 		settle := func(what string) bool {
+			if !vfC04Proofs {
+				// fallback: more resyncs of the current content than a watcher channel buffers; when
+				// they have all been handed over every watching pool has applied the first of them
+				if !registered || !driver.firstDone {
+					return true
+				}
+				for b := 0; b < vfC04Burst; b++ {
+					key, proof, err := driver.send(&serviceregistry.RegistryEvent{SourceRegistryName: driver.Name(), UseReplace: true, Replace: driver.content()})
+					if !verdict(what, key, proof, err) {
+						return false
+					}
+				}
+				return true
+			}
 			key, proof, err := vfC04Await(vfC04Closed, true, what)
 			return verdict(what, key, proof, err)
 		}
@@ -413,7 +540,9 @@ func TestVerifC04Watcher(t *testing.T) {
 			if stuck {
 				// goroutines of this case stay behind (they are blocked for ever by the defect found);
 				// remember them so that later cases (rapid shrinking the failure) are not judged on them
-				vfC04Base = vfC04StableSnapshot()
+				if vfC04Proofs {
+					vfC04IgnoreLeftovers()
+				}
 				return
 			}
 			for _, g := range gens {
